@@ -42,20 +42,20 @@ func dslValidationFiles(f string) bool {
 
 func init() {
 	reg("C05", ruleInverseInvolution, ruleWrapperRecursion, ruleChangeKindsConsumed, ruleEndStream, ruleComparersConsultTheirData, rulePreviousSchemasPositional)
-	reg("C06", ruleWrapperRecursion, ruleChangeKindsConsumed, ruleChangeDataUsed, ruleComparersConsultTheirData, ruleE3(evoScope, "E3"), ruleE2(evoScope, "E2"), ruleE5(evoScope, "E5"), ruleMapOrderScoped, rulePrunesPartial(evolutionFiles, "V5", 3))
+	reg("C06", ruleOptionalDeref(evolutionFiles, "NP1", 3), ruleWrapperRecursion, ruleChangeKindsConsumed, ruleChangeDataUsed, ruleComparersConsultTheirData, ruleE3(evoScope, "E3"), ruleE2(evoScope, "E2"), ruleE5(evoScope, "E5"), ruleMapOrderScoped, rulePrunesPartial(evolutionFiles, "V5", 3))
 	reg("C04", ruleOneSchemaFunction, ruleMarshalCoverage, ruleSchemaCanonical, rulePrunes(schemaFiles, "V5", 2), ruleStateMachineSchemaCheck)
 	reg("C01", rulePlan, ruleRecordOrder, ruleDirectionDuality, ruleCppPrimitiveFamilies, ruleStepFraming, ruleEmptyBatchGuard, ruleEndStream, ruleTrivialRecordTrait)
 	reg("C16", ruleEndStream, ruleStepFraming)
 	reg("C17", ruleEmptyBatchGuard, ruleStepFraming, ruleFallbackBatchTruncates)
 	reg("C15", ruleStateMachineSchemaCheck, ruleMarshalCoverage)
 	reg("C03", ruleEmittedSymbols, rulePlan, ruleJsonKinds, ruleTrivialRecordTrait, ruleJsonNamesAreModelNames)
-	reg("C08", ruleEmittedSymbols, ruleSwitchDefaults(backendFiles, "P4", 25), ruleReservedTables, ruleIdentifierHelpers, ruleDependenciesFirst, ruleOptionGating, ruleUniquenessVsMangling)
+	reg("C08", ruleOptionalDeref(backendFiles, "NP1", 20), ruleEmittedSymbols, ruleSwitchDefaults(backendFiles, "P4", 25), ruleReservedTables, ruleIdentifierHelpers, ruleDependenciesFirst, ruleOptionGating, ruleUniquenessVsMangling)
 	reg("C19", ruleCommonTypeMap, ruleEmitterSiblings, ruleParenthesisation, ruleOperatorTokens, rulePromotionNotBypassed, ruleConversionAlwaysExplicit, ruleMatlabConversionClass)
 	reg("C13", ruleAliasTable, ruleFilesAreCombined, ruleSpellingErased, ruleShorthandTwins, ruleDocCommentSuffix, ruleTypeTags, ruleSchemaCanonical, rulePrunes(topoSortFiles, "V5", 2))
 	reg("C07", ruleStateMachine, ruleNoReturnBeforeStateGuard)
 	reg("C02", ruleJsonKinds, ruleUnionTagDecision, ruleKindTests, ruleOptionalFieldSymmetry, ruleJsonNamesAreModelNames)
 	reg("C14", rulePlan, ruleRecordOrder, ruleOptionalFieldSymmetry, ruleTrivialRecordTrait, ruleMatlabExtentOrderAgrees)
-	reg("C10", rulePairAccess, ruleConstIndex(frontEndNoEvolution, "P2", 30), ruleMakeBounds, ruleErrorProvenance, ruleBreakInSwitchInLoop, rulePositions, ruleNodeLiteralsPositioned, ruleBigIndex, ruleAborts(frontEndNoEvolution, "P4", 25), ruleDecodeLoopLeavesOnError,
+	reg("C10", rulePairAccess, ruleConstIndex(frontEndNoEvolution, "P2", 30), ruleMakeBounds, ruleErrorProvenance, ruleBreakInSwitchInLoop, rulePositions, ruleNodeLiteralsPositioned, ruleBigIndex, ruleAborts(frontEndNoEvolution, "P4", 25), ruleDecodeLoopLeavesOnError, ruleOptionalDeref(frontEndNoEvolution, "NP1", 30),
 		ruleE3(frontScope, "E3"), ruleCollectPackages, ruleBinaryOperatorTokens, ruleReflectiveWalkTerminates)
 	reg("C20", ruleWatchSerialised, ruleWatchRecovers, ruleChdirRestored, ruleWatchEveryEventSchedules, ruleWatchSurvivesErrors, ruleWatchInputsNotMutated)
 	reg("C18", ruleCollectPackages, ruleNamespaceFlattening, ruleAllModelsValidated, ruleE2(frontScope, "E2"), ruleE5(frontScope, "E5"))
